@@ -176,6 +176,7 @@ func NewWorld(t *testing.T, captureLog bool) *World {
 	execCounter++
 	w := &World{T: t, S: vsched.Cur()}
 	w.Net = memnet.New()
+	memnet.ProbeUserAgent = "kamal-proxy" // probes sent through a client other than the default one are recognised by this
 	base := os.Getenv("VERIF_SCRATCH")
 	if base == "" {
 		base = "/dev/shm"
@@ -317,6 +318,9 @@ func pStatus(s int) memnet.ProbeStep {
 }
 func pSlow() memnet.ProbeStep { return memnet.ProbeStep{Kind: "ok", Delay: vSlowProbe} }
 func pHang() memnet.ProbeStep { return memnet.ProbeStep{Kind: "hang"} }
+
+// pStallBody: the probe is answered 200 at once but its body never completes
+func pStallBody() memnet.ProbeStep { return memnet.ProbeStep{Kind: "ok-stall"} }
 
 // ---------------------------------------------------------------------------
 // commands
